@@ -51,13 +51,14 @@ pub fn gen_c13(base_seed: u64, batch: &str, run: u64, rng: &mut Rng) -> Scenario
             for _ in 0..n_steps {
                 match rng.weighted(&[60, 10, if exclusive { 20 } else { 0 }, 10, if exclusive { 15 } else { 0 }]) {
                     0 => {
-                        let kind = match rng.weighted(&[40, 25, 10, 15, 10, 8]) {
+                        let kind = match rng.weighted(&[40, 25, 10, 15, 10, 8, 8]) {
                             0 => LendKind::MakeRefA,
                             1 => LendKind::MakeRefB,
                             2 => LendKind::Lent,
                             3 => LendKind::ViaHelper,
                             4 => LendKind::CloneOfSelf,
-                            _ => LendKind::MakeRefZ,
+                            5 => LendKind::MakeRefZ,
+                            _ => LendKind::ViaLentClone,
                         };
                         let n = if big && matches!(kind, LendKind::MakeRefA | LendKind::MakeRefB) {
                             *rng.pick(&[50u32, 200, 1000, 3000, 6000])
@@ -340,6 +341,11 @@ pub fn gen_c09(base_seed: u64, batch: &str, run: u64, rng: &mut Rng) -> Scenario
     let mut live: Vec<u8> = vec![0];
     let mut next_slot = 1u8;
     let mut original_gone = false;
+    // mocks on plain OS threads that come and go (thread identity after a thread's exit, thread-local
+    // destructors)
+    if rng.chance(1, 40) {
+        threads[0].push(Op::FreshThreads { kind: rng.below(3) as u8 });
+    }
     // scale: more clones over the life of one mock than a 16-bit counter holds
     if rng.chance(1, 120) {
         threads[0].push(Op::CloneStorm { slot: 0, n: *rng.pick(&[300u32, 65_540, 66_000]) });
@@ -528,6 +534,24 @@ pub fn check_c09(scn: &Scenario) -> Checked {
             (Op::Clone { .. }, _) => {
                 if !matches!(o.result, OpResult::Done) {
                     violations.push(v("C09", "clone-never-panics", "clone", format!("cloning panicked: {:?}", o.result)));
+                }
+            }
+            (Op::FreshThreads { kind }, _) => {
+                *stats.probes.entry(format!("fresh_threads_kind_{kind}")).or_default() += 1;
+                match (kind, &o.result) {
+                    (_, OpResult::Done) => {}
+                    (0 | 1, r) => violations.push(v(
+                        "C09",
+                        "foreign-thread-panic-required",
+                        "creator-thread-exited",
+                        format!("an original built on a thread that has exited was {} on a thread spawned afterwards: {r:?}", if *kind == 1 { "verified" } else { "dropped" }),
+                    )),
+                    (_, r) => violations.push(v(
+                        "C09",
+                        "verdict",
+                        "thread-local-destructor",
+                        format!("an original with every expectation met, dropped by a thread-local destructor of the thread that created it: {r:?}"),
+                    )),
                 }
             }
             (Op::CloneStorm { n, .. }, _) => {
